@@ -1,5 +1,6 @@
 //! Native bounded contract checks for the policy parser (child module of `access_policy`).
 use super::*;
+use crate::verif_native::{done, vchk};
 use std::collections::BTreeSet;
 
 /// reference evaluation of the documented grammar: parentheses first, AND (explicit `&&` or juxtaposition) before OR
@@ -75,8 +76,8 @@ fn parse__total_on_all_short_strings() {
                 Ok(Ok(p)) => {
                     for c in p.to_dnf() {
                         for t in c {
-                            assert!(s.contains(&t.dimension) && s.contains(&t.name) && !t.dimension.is_empty() && !t.name.is_empty(), "C15: parsing {s:?} yields the attribute {t:?} which is not part of the input");
-                            assert!(t.dimension.trim() == t.dimension && t.name.trim() == t.name, "C15: attribute names are trimmed");
+                            vchk!(s.contains(&t.dimension) && s.contains(&t.name) && !t.dimension.is_empty() && !t.name.is_empty(), "C15: parsing {s:?} yields the attribute {t:?} which is not part of the input");
+                            vchk!(t.dimension.trim() == t.dimension && t.name.trim() == t.name, "C15: attribute names are trimmed");
                         }
                     }
                 }
@@ -95,6 +96,7 @@ fn parse__total_on_all_short_strings() {
         }
     }
     println!("VERIF-COUNT parse__total_on_all_short_strings {n}");
+    done();
 }
 
 // @obl props=C15 tier=quick fn=abe_policy::AccessPolicy::parse shape="all formulas of depth <= 2 over 3 variables (one with multi-byte name) and '*', printed in 16 styles (spacing, redundant parentheses): parse, to_dnf and the reference evaluation agree under all 8 truth assignments; names preserved"
@@ -120,18 +122,19 @@ fn parse__faithful_to_reference_semantics() {
                     format!("{}::{}", d.trim(), nme.trim())
                 }).collect();
                 let want = eval(a, &truth);
-                assert!(eval_policy(&p, &truth) == want, "C15: {text:?} parsed as {p:?} evaluates to {} under {truth:?}, the expression (parentheses first, AND before OR) evaluates to {want}", !want);
-                assert!(eval_dnf(&dnf, &truth) == want, "C15: the DNF {dnf:?} of {text:?} evaluates to {} under {truth:?}, expected {want}", !want);
+                vchk!(eval_policy(&p, &truth) == want, "C15: {text:?} parsed as {p:?} evaluates to {} under {truth:?}, the expression (parentheses first, AND before OR) evaluates to {want}", !want);
+                vchk!(eval_dnf(&dnf, &truth) == want, "C15: the DNF {dnf:?} of {text:?} evaluates to {} under {truth:?}, expected {want}", !want);
                 n += 1;
             }
             for c in &dnf {
                 for t in c {
-                    assert!(vars.iter().any(|v| { let (d, nme) = v.split_once("::").unwrap(); d == t.dimension && nme == t.name }), "C15: {text:?}: attribute {t:?} is not one of the names of the input");
+                    vchk!(vars.iter().any(|v| { let (d, nme) = v.split_once("::").unwrap(); d == t.dimension && nme == t.name }), "C15: {text:?}: attribute {t:?} is not one of the names of the input");
                 }
             }
         }
     }
     println!("VERIF-COUNT parse__faithful_to_reference_semantics {n}");
+    done();
 }
 
 // @obl props=C15,C09 tier=quick fn=abe_policy::AccessPolicy::parse shape="documented error cases and precedence examples"
@@ -140,18 +143,19 @@ fn parse__documented_cases() {
     // strings the documentation or the test-suite declare invalid: an error, never a panic, never a policy
     for bad in ["DPT::MKG (&& CTR::FR || CTR::DE)", "DPT::MKG DPT::FIN", "D1::A (&& D2::A || D2::B)", "|| D2::B", "D1", "(D1::A", "D1::A)", "D1::A & D2::B", "D1::A | D2::B", "D::a::b"] {
         let r = std::panic::catch_unwind(|| AccessPolicy::parse(bad));
-        assert!(matches!(r, Ok(Err(_))), "C15/C09: {bad:?} must be rejected with an error (got {})", if r.is_err() { "a panic" } else { "a policy" });
+        vchk!(matches!(r, Ok(Err(_))), "C15/C09: {bad:?} must be rejected with an error (got {})", if r.is_err() { "a panic" } else { "a policy" });
     }
     // malformed strings: a value or an error, never a panic
     for odd in ["", "   ", "&& D2::B", "D1::A &", "D1::A |", "D1::A && ", "D1::A || ", "::", "D::", "::a", "(", ")", "()", "é", "(é)", "D1::A |é", "D1::A &é", "((", "))", "(é::é)é", "*é", "é*", "* && D1::A"] {
-        assert!(std::panic::catch_unwind(|| AccessPolicy::parse(odd)).is_ok(), "C15: parsing {odd:?} panics");
+        vchk!(std::panic::catch_unwind(|| AccessPolicy::parse(odd)).is_ok(), "C15: parsing {odd:?} panics");
     }
     let t = |d: &str, n: &str| AccessPolicy::Term(QualifiedAttribute::new(d, n));
-    assert!(AccessPolicy::parse("D1::A && D2::A || D2::B").unwrap() == ((t("D1", "A") & t("D2", "A")) | t("D2", "B")), "C15: AND binds tighter than OR");
-    assert!(AccessPolicy::parse("D1::A || D2::A && D2::B").unwrap() == (t("D1", "A") | (t("D2", "A") & t("D2", "B"))), "C15: AND binds tighter than OR");
-    assert!(AccessPolicy::parse("D1::A && (D2::A || D2::B)").unwrap() == (t("D1", "A") & (t("D2", "A") | t("D2", "B"))), "C15: parentheses first");
-    assert!(AccessPolicy::parse("(Dé::a é) && D::b").unwrap() == (t("Dé", "a é") & t("D", "b")), "C15: multi-byte names inside parentheses are preserved");
-    assert!(AccessPolicy::parse(" * ").unwrap() == AccessPolicy::Broadcast, "C15: '*' is the broadcast policy");
-    assert!(AccessPolicy::parse("D1::A && *").unwrap() == t("D1", "A"), "C15: a trailing '*' is neutral in a conjunction");
+    vchk!(AccessPolicy::parse("D1::A && D2::A || D2::B").unwrap() == ((t("D1", "A") & t("D2", "A")) | t("D2", "B")), "C15: AND binds tighter than OR");
+    vchk!(AccessPolicy::parse("D1::A || D2::A && D2::B").unwrap() == (t("D1", "A") | (t("D2", "A") & t("D2", "B"))), "C15: AND binds tighter than OR");
+    vchk!(AccessPolicy::parse("D1::A && (D2::A || D2::B)").unwrap() == (t("D1", "A") & (t("D2", "A") | t("D2", "B"))), "C15: parentheses first");
+    vchk!(AccessPolicy::parse("(Dé::a é) && D::b").unwrap() == (t("Dé", "a é") & t("D", "b")), "C15: multi-byte names inside parentheses are preserved");
+    vchk!(AccessPolicy::parse(" * ").unwrap() == AccessPolicy::Broadcast, "C15: '*' is the broadcast policy");
+    vchk!(AccessPolicy::parse("D1::A && *").unwrap() == t("D1", "A"), "C15: a trailing '*' is neutral in a conjunction");
     println!("VERIF-COUNT parse__documented_cases 38");
+    done();
 }
